@@ -980,9 +980,8 @@ inline constexpr void Conversion<Unit::Acceleration, Unit::Acceleration::Microin
 }
 
 template <typename NumericType>
-inline const std::map<Unit::Acceleration,
-                      std::function<void(NumericType* values, const std::size_t size)>>
-    MapOfConversionsFromStandard<Unit::Acceleration, NumericType>{
+inline constexpr auto MapOfConversionsFromStandard<Unit::Acceleration, NumericType>{
+  MakeConversionTable<Unit::Acceleration, NumericType>({
       {Unit::Acceleration::MetrePerSquareSecond,
        Conversions<Unit::Acceleration, Unit::Acceleration::MetrePerSquareSecond>::
            FromStandard<NumericType>                        },
@@ -1099,12 +1098,12 @@ inline const std::map<Unit::Acceleration,
       {Unit::Acceleration::MicroinchPerSquareHour,
        Conversions<Unit::Acceleration, Unit::Acceleration::MicroinchPerSquareHour>::
            FromStandard<NumericType>                        },
+})
 };
 
 template <typename NumericType>
-inline const std::map<Unit::Acceleration,
-                      std::function<void(NumericType* const values, const std::size_t size)>>
-    MapOfConversionsToStandard<Unit::Acceleration, NumericType>{
+inline constexpr auto MapOfConversionsToStandard<Unit::Acceleration, NumericType>{
+  MakeConversionTable<Unit::Acceleration, NumericType>({
       {Unit::Acceleration::MetrePerSquareSecond,
        Conversions<Unit::Acceleration, Unit::Acceleration::MetrePerSquareSecond>::
            ToStandard<NumericType>                        },
@@ -1221,6 +1220,7 @@ inline const std::map<Unit::Acceleration,
       {Unit::Acceleration::MicroinchPerSquareHour,
        Conversions<Unit::Acceleration, Unit::Acceleration::MicroinchPerSquareHour>::
            ToStandard<NumericType>                        },
+})
 };
 
 }  // namespace Internal
